@@ -373,15 +373,42 @@ class Evaluator:
                 return r
             self.trace.append((nm, None, n))
             raise Unknown("call " + str(nm))
-        if k in ("CXXConstructExpr", "CXXTemporaryObjectExpr"):
-            # objects are not modelled, but the arguments are evaluated (calls in them are answered and traced)
-            for a in f.args(n):
+        if k == "CXXNewExpr":
+            # a fresh object: its address is a new integer; constructor arguments are evaluated and recorded
+            self._newid = getattr(self, "_newid", 880000) + 16
+            argv = []
+            for ch in n.get("c", []):
+                inner = f.strip(ch)
                 try:
-                    self.ev(a)
+                    if inner is not None and inner["k"] in ("CXXConstructExpr", "CXXTemporaryObjectExpr"):
+                        for a in f.args(inner):
+                            try:
+                                argv.append(self.ev(a))
+                            except Thrown:
+                                raise
+                            except Unknown:
+                                argv.append(None)
+                    else:
+                        self.ev(ch)
                 except Thrown:
                     raise
                 except Unknown:
                     pass
+            self.trace.append(("new " + (n.get("ct") or "?"), [self._newid] + argv, n))
+            return self._newid
+        if k in ("CXXConstructExpr", "CXXTemporaryObjectExpr", "CXXFunctionalCastExpr"):
+            # objects are not modelled, but the arguments are evaluated (calls in them are answered and traced);
+            # a string object built from one string value is that string value
+            vals_ = []
+            for a in f.args(n) if k != "CXXFunctionalCastExpr" else n.get("c", []):
+                try:
+                    vals_.append(self.ev(a))
+                except Thrown:
+                    raise
+                except Unknown:
+                    vals_.append(None)
+            if len(vals_) == 1 and isinstance(vals_[0], tuple) and vals_[0][0] == "str":
+                return vals_[0]
             raise Unknown(k)
         raise Unknown(k)
 
@@ -502,6 +529,7 @@ class Evaluator:
                     return "throw", visited
                 except Unknown as u:
                     vals[e] = u
+            self.__dict__.setdefault("_cache", {}).update(vals)
             succ = [s for s in blk["succ"]]
             if blk.get("tempdtorbranch") and len(succ) == 2:
                 # both successors differ only in a temporary's destructor, which is not modelled
@@ -509,24 +537,39 @@ class Evaluator:
                 continue
             if blk.get("cond") is not None and len(succ) == 2:
                 c = blk["cond"]
-                v = vals.get(c)
-                cn_ = f.nodes[c]
-                while v is None:
-                    if cn_["k"] in TRANSPARENT and len(cn_.get("c", [])) == 1:
-                        # the terminator is a wrapper (parentheses) of an element that was already folded: do not fold it twice
-                        cn_ = cn_["c"][0]
-                    elif cn_["k"] == "BinaryOperator" and cn_.get("op") in ("&&", "||"):
-                        # clang gives the statement's whole condition; the left operands were decided in predecessor
-                        # blocks (short-circuit edges), this block decides the right-most operand
-                        cn_ = f.node(cn_["rhs"])
-                    else:
+                cache = self.__dict__.setdefault("_cache", {})
+                cache.update(vals)
+
+                def cond_value(n_):
+                    """value of a (sub)condition: operands that were folded as elements of this or an earlier block
+                    (short-circuit blocks) are taken from there, never folded twice"""
+                    x = n_
+                    while True:
+                        if x["id"] in cache:
+                            r_ = cache[x["id"]]
+                            if isinstance(r_, Unknown):
+                                raise r_
+                            return r_
+                        if (x["k"] in TRANSPARENT or (x["k"] == "ImplicitCastExpr" and x.get("ck") in ("IntegralToBoolean", "PointerToBoolean", "NoOp", "LValueToRValue", "UserDefinedConversion"))) and len(x.get("c", [])) == 1:
+                            if x["k"] == "ImplicitCastExpr" and x.get("ck") in ("IntegralToBoolean", "PointerToBoolean"):
+                                return 1 if cond_value(x["c"][0]) else 0
+                            x = x["c"][0]
+                            continue
                         break
-                    v = vals.get(cn_["id"])
-                if v is None:
-                    try:
-                        v = self.ev(cn_)
-                    except Unknown as u:
-                        v = u
+                    if x["k"] == "BinaryOperator" and x.get("op") in ("&&", "||"):
+                        l_ = cond_value(f.node(x["lhs"]))
+                        if x["op"] == "&&":
+                            return (1 if cond_value(f.node(x["rhs"])) else 0) if l_ else 0
+                        return 1 if l_ else (1 if cond_value(f.node(x["rhs"])) else 0)
+                    if x["k"] == "UnaryOperator" and x.get("op") == "!":
+                        return 0 if cond_value(x["c"][0]) else 1
+                    r_ = self.ev(x)
+                    cache[x["id"]] = r_
+                    return r_
+                try:
+                    v = cond_value(f.nodes[c])
+                except Unknown as u:
+                    v = u
                 if isinstance(v, Unknown):
                     raise Unknown("branch on unknown %s: %s" % (render(f, f.nodes[c]), v))
                 b = succ[0] if v else succ[1]
